@@ -1,10 +1,10 @@
 package checks
 
 import (
-	"strconv"
 	"fmt"
 	"math/rand"
 	"sort"
+	"strconv"
 	"strings"
 
 	"evylang.dev/evy/pkg/parser"
